@@ -103,17 +103,11 @@ theorem pre1_text (t : Tok) :
       simp [List.flatMap_def, List.map_map, Function.comp_def, tokText]
   | _ => simp [pre1, tokText]
 
-/-! ## `lexF_layout` — PARTIAL
+/-! ## `lexF_layout`
 
-Full statement (not proved): for every well-formed token list `ts` and every layout `L` (blanks
-between tokens, `&`-continuations at token boundaries, trailing comments),
-`lexF (render ts L) = ts`.
-
-Proved for every input: the layout *steps* of the lexer in `Proofs/NormLex.lean`
-(`lexGo_blanks`, `lexGo_comment`, `lexGo_continuation`, `lexGo_cont_amp`, `lexGo_newline_mid`,
-`lexGo_newline_bol`, `lexGo_semicolon_mid`, `lexGo_name`), and the round trip below for statements
-made of names under every blank layout.  Missing: the scanning lemmas for numbers, literals,
-dotted tokens and operators, and fuel-independence of `lexGo` (needed to chain statements). -/
+The full theorem (all token classes, continuation / comment layouts, several statements) is
+`Fp.Norm.lexF_layout` in `Props/NormLayout.lean`.  Below: the earlier names-only fragment and
+concrete instances. -/
 
 /-- `lexF_layout`, names-only fragment: a statement of well-formed names rendered with any
     number (≥ 1) of blanks after each name lexes back to exactly those names. -/
